@@ -53,6 +53,41 @@ def model_status(resp):
     return "bad:" + str(resp)[:80]
 
 
+def weaker_comparator_only(case, ms, resp, seed):
+    """impl: compilation error 'constraint was violated'; model: ok with an inconclusive constraint whose sides differ at every
+    sampled point (by the same amount) — the model's comparator is weaker than sympy's, nothing else differs"""
+    if not (case.status == "compilation" and ms == "ok" and "constraint was violated" in str(case.err)):
+        return False
+    import random as _r
+    from fractions import Fraction as _F
+
+    rng = _r.Random(seed * 5 + 3)
+    try:
+        m = model.decode_croutine(resp[1])
+    except Exception:
+        return False
+
+    def nodes(t):
+        yield t
+        for c in t["children"]:
+            yield from nodes(c)
+    for n in nodes(m):
+        for c in n.get("constraints", []):
+            if c[2] != "inconclusive":
+                continue
+            diffs = set()
+            for _ in range(4):
+                env = {x: _F(rng.randint(2, 11)) for x in E.fv(c[0]) | E.fv(c[1])}
+                salt = rng.randint(0, 10**6)
+                try:
+                    diffs.add(E.ev(c[0], env, salt) - E.ev(c[1], env, salt))
+                except Exception:
+                    diffs.add(None)
+            if len(diffs) == 1 and None not in diffs and 0 not in diffs:
+                return True
+    return False
+
+
 def same_status(impl, mod):
     if impl == mod:
         return True
@@ -229,7 +264,12 @@ def _work(args):
             r = E.parse_sexp(resp_line)
             ms = model_status(r)
             res.stats["model_vs_impl_compared"] += 1
-            if not same_status(case.status, ms):
+            if not same_status(case.status, ms) and weaker_comparator_only(case, ms, r, seed):
+                # sympy's automatic simplification (ceiling(ceiling(x)) = ceiling(x), …) lets the real comparator decide a constraint that
+                # the model's polynomial comparator keeps as inconclusive: the comparator is a parameter of the theorems (CmpSound), a
+                # weaker sound instance is not a disagreement — provided the retained constraint really is violated
+                res.stats["comparator_weaker_than_sympy"] += 1
+            elif not same_status(case.status, ms):
                 res.disagreement("compile_routine vs compileRoutine (outcome)", {"qref": case.qref, "generator_seed": seed},
                                  ms, case.status + ((": " + str(case.err)[:200]) if case.err else ""))
             elif case.status == "ok":
